@@ -301,3 +301,52 @@ def run(chk, tier):
         chk.ok('R5', 'recv_tcp_sockets', 'recv_tcp_socket(socket, probe.src_port, probe.dest_port) of the same in-flight entry')
     else:
         chk.fail('R5', 'recv_tcp_sockets', fn_loc(fr), 'recv_tcp_socket is called with %s' % (calls[:1] or det[:1]), key='R5|recv_tcp_sockets')
+    # the entry taken out of the pending list is the one whose socket answered: the index handed to `remove` is the result of the search for a
+    # writable socket, and the list is not modified between that search and the removal (an index found before entries are expired names another probe after)
+    MUT = r'(ArrayVec|Vec)(::<[^>]*>)?::(retain|retain_mut|remove|swap_remove|push|try_push|insert|try_insert|clear|truncate|drain|pop|pop_at|swap_pop|sort\w*|reverse|swap)$'
+    SEARCH = r'::(find_map|position)$'
+    why = None
+    n_rm = 0
+    for o in outs:
+        if o.kind != 'return':
+            continue
+        ev = user_calls(o)
+        rms = [i for i, c in enumerate(ev) if re.search(r'(ArrayVec|Vec)(::<[^>]*>)?::(remove|swap_remove|pop_at|swap_pop)$', c[1]) and 'tcp_probes' in vshow(c[7][0])]
+        srch = [i for i, c in enumerate(ev) if re.search(SEARCH, c[1]) and 'tcp_probes' in vshow(c[7][0])]
+        if any(re.search(r'Ipv[46]::recv_tcp_socket$', c[1]) for c in ev) and not rms:
+            why = 'a pending TCP socket is handed to recv_tcp_socket without being taken out of the pending list'
+        for i in rms:
+            n_rm += 1
+            idx = vshow(ev[i][7][1])
+            m = re.fullmatch(r'field:0\((call:(?:Iterator|IterMut|Iter)::(?:find_map|position)\(.*\))\)', idx)
+            if not m or not srch:
+                why = 'the pending TCP entry is removed at index %s, which is not the result of the search for a writable socket' % idx[:100]
+                continue
+            j = max(k for k in srch if k < i) if any(k < i for k in srch) else None
+            if j is None or vshow(('call', ev[j][1], ev[j][7])) if False else j is None:
+                why = 'the pending TCP entry is removed before the search for a writable socket'
+                continue
+            between = [short(c[1]) for c in ev[j + 1:i] if re.search(MUT, c[1]) and 'tcp_probes' in vshow(c[7][0])]
+            if between:
+                why = 'the pending list is modified by %s between finding the writable socket and removing it: the index found names a different probe afterwards, so the handshake answer is attributed to another probe\'s ports' % between
+    # the search itself: the entry found is one whose socket reports writable
+    scl = []
+    for c in cls:
+        stc = St()
+        e1c = Engine(prog, inline_depth=1)
+        tys = [l['ty'] for l in c['locals'][:3]]
+        if tys and tys[0] == 'core::option::Option<usize>':
+            co = e1c.run(c, [e1c.sym_ref(stc, 'env'), ('tuple', [('sym', 'index'), e1c.sym_ref(stc, 'entry')])], stc)
+            rows = sorted((vshow(o.value), tuple((vshow(a), v) for a, v, _ in o.st.decisions)) for o in co)
+            scl.append(rows == [('Option::None', (('unwrap_or_default(call:Socket::is_writable(entry.socket))', 0),)), ('Option::Some(index)', (('unwrap_or_default(call:Socket::is_writable(entry.socket))', 1),))])
+        elif tys and tys[0] == 'bool' and len(tys) > 2 and 'TcpProbe' in tys[2]:
+            co = e1c.run(c, [e1c.sym_ref(stc, 'env'), e1c.sym_ref(stc, 'entry')], stc)
+            vals = sorted(vshow(o.value) for o in co)
+            if any('is_writable' in v for v in vals) or any('is_writable' in vshow(a) for o in co for a, _, _ in o.st.decisions):
+                scl.append(vals == ['unwrap_or_default(call:Socket::is_writable(entry.socket))'] or
+                           sorted((vshow(o.value), tuple(v for _, v, _ in o.st.decisions)) for o in co) == [('0', (0,)), ('1', (1,))])
+    if why is None and n_rm and scl and all(scl):
+        chk.ok('R5', 'recv_tcp_sockets:found-is-removed', 'remove(index of the first entry whose socket is writable); no modification of the pending list in between (%d traces)' % n_rm)
+    else:
+        chk.fail('R5', 'recv_tcp_sockets:found-is-removed', fn_loc(fr), 'Channel::recv_tcp_sockets: %s' % (why or 'the search for the answering socket was not recognised (closures %s, removals %d)' % (scl, n_rm)),
+                 key='R5|recv_tcp_sockets|found-is-removed')
